@@ -139,6 +139,24 @@ class Determinism(object):
 
     def careless(self, raw, a, k):
         self.calls += 1
+        if self.calls % 211 == 0 and a:
+            # a near miss of THIS call right before it (one text argument with a stray character, cut short, padded): refused or
+            # not, the good call that follows is judged as usual - a memo that stores its key before the answer, or keeps the
+            # previous answer when the computation raises, hands the caller somebody else's result
+            ctx = DET['ctx']
+            n = self.calls // 211
+            idx = [i for i, v in enumerate(a) if isinstance(v, str) and type(v) is str]
+            if idx:
+                i = idx[n % len(idx)]
+                v = a[i]
+                b = list(a)
+                b[i] = [v + 'x', v[:-1], v + ' ', v + '\x00', 'x' + v, v + 'T00:00:00', v.swapcase() + '?'][(n // len(idx)) % 7]
+                try:
+                    raw(*b, **k)
+                except BaseException as e:       # noqa
+                    if isinstance(e, (KeyboardInterrupt, SystemExit, MemoryError)):
+                        raise
+                ctx.counters['eval.near-miss-of-the-call-right-before-it'] += 1
         if self.calls % 701 or not a:
             return
         ctx = DET['ctx']
@@ -194,6 +212,8 @@ HOSTILE = [
     ('rounding=ROUND_FLOOR,traps=FloatOperation', dict(rounding=_decimal.ROUND_FLOOR, traps=[_decimal.FloatOperation, _decimal.InvalidOperation,
                                                                                              _decimal.DivisionByZero, _decimal.Overflow])),
     ('prec=7,rounding=ROUND_CEILING', dict(prec=7, rounding=_decimal.ROUND_CEILING)),
+    # the sticky signal flags of a thread that has done inexact Decimal arithmetic before (localcontext() copies them)
+    ('flags=Inexact+Rounded', dict(flags=[_decimal.Inexact, _decimal.Rounded, _decimal.Subnormal])),
 ]
 AMB = {'on': False, 'n': 0, 'current': None, 'force': None, 'period': 5,
        'ctxs': [(n, _decimal.Context(**kw)) for n, kw in HOSTILE]}
